@@ -47,13 +47,14 @@ type Scenario struct {
 	Goroutines int    `json:"goroutines"` // logging goroutines
 	PerG       int    `json:"per_g"`      // entries per goroutine (random) / held entries in total (forced)
 	Writers    int    `json:"writers"`
-	Prefill    int    `json:"prefill"`     // forced: entries logged and written before the flusher is held
-	FlushAfter int    `json:"flush_after"` // random: FlushLogger is called once this many log calls have returned
-	Linger     int    `json:"linger"`      // random: Gosched rounds the flusher spends at the yield point
-	SlowWrite  int    `json:"slow_write"`  // Gosched rounds inside every Write
-	MaxLen     int    `json:"max_len"`     // longest payload
-	Model      bool   `json:"model"`       // replay the history through the Lean model
-	Repeat     int    `json:"repeat"`      // replay: how often the scenario is executed (schedules differ)
+	Prefill    int    `json:"prefill"`       // forced: entries logged and written before the flusher is held
+	FlushAfter int    `json:"flush_after"`   // random: FlushLogger is called once this many log calls have returned
+	Linger     int    `json:"linger"`        // random: Gosched rounds the flusher spends at the yield point
+	SlowWrite  int    `json:"slow_write"`    // Gosched rounds inside every Write
+	MaxLen     int    `json:"max_len"`       // longest payload
+	WaitFlush  int    `json:"wait_flush_ms"` // forced: every Write of a held entry waits up to this long for FlushLogger to return
+	Model      bool   `json:"model"`         // replay the history through the Lean model
+	Repeat     int    `json:"repeat"`        // replay: how often the scenario is executed (schedules differ)
 }
 
 type event struct {
@@ -117,12 +118,23 @@ type recWriter struct {
 	slow int
 	gate chan struct{} // timeout stream: the first Write blocks until the gate is closed
 	once sync.Once
+	// forced stream: a Write waits (bounded) for FlushLogger's return. In a correct flusher the
+	// return cannot come before the Write is over, so the wait always runs out; a flusher that
+	// signals completion before it has written is caught red-handed.
+	flushReturned chan struct{}
+	waitFlush     time.Duration
 }
 
 func (w *recWriter) Write(v []byte) {
 	w.rec.add(event{Kind: "W", W: w.id, Data: append([]byte(nil), v...)})
 	if w.gate != nil {
 		w.once.Do(func() { <-w.gate })
+	}
+	if w.waitFlush > 0 {
+		select {
+		case <-w.flushReturned:
+		case <-time.After(w.waitFlush):
+		}
 	}
 	for i := 0; i < w.slow; i++ {
 		runtime.Gosched()
@@ -168,16 +180,23 @@ func payload(rng *rand.Rand, g, n, maxLen int) []byte {
 }
 
 func loggers(sc Scenario, rec *recorder, gate chan struct{}) []*rogger.Logger {
+	lgs, _ := loggersW(sc, rec, gate)
+	return lgs
+}
+
+func loggersW(sc Scenario, rec *recorder, gate chan struct{}) ([]*rogger.Logger, []*recWriter) {
 	lgs := make([]*rogger.Logger, sc.Writers)
+	ws := make([]*recWriter, sc.Writers)
 	for i := range lgs {
 		lgs[i] = rogger.GetLogger(fmt.Sprintf("c20-w%d", i))
 		w := &recWriter{id: i, rec: rec, slow: sc.SlowWrite}
 		if i == 0 {
 			w.gate = gate
 		}
+		ws[i] = w
 		lgs[i].SetWriter(w)
 	}
-	return lgs
+	return lgs, ws
 }
 
 // logOne performs one logging call of goroutine g and records its call / return.
@@ -250,7 +269,7 @@ func runForced(sc Scenario) outcome {
 	if !rogger.VerifReset(sc.Cap, longTimeout, yield, watchdog) {
 		return outcome{hang: "flushLog"}
 	}
-	lgs := loggers(sc, rec, nil)
+	lgs, ws := loggersW(sc, rec, nil)
 	n := make([]int, sc.Goroutines)
 	next := func(i int) (int, int, []byte) {
 		g := i % sc.Goroutines
@@ -288,6 +307,11 @@ func runForced(sc Scenario) outcome {
 	}
 	// the flusher is between its two selects; these calls return (the entries fit into the queue:
 	// the last prefill entry may still be in it) and the entries stay queued
+	flushReturned := make(chan struct{})
+	for _, w := range ws { // the flusher is held: it is not inside a Write
+		w.flushReturned = flushReturned
+		w.waitFlush = time.Duration(sc.WaitFlush) * time.Millisecond
+	}
 	m := sc.PerG
 	if free := sc.Cap - rogger.VerifQueueLen(); m > free {
 		m = free
@@ -322,6 +346,7 @@ func runForced(sc Scenario) outcome {
 		close(relDone)
 	}()
 	completed, took, hang := flushAndRecord(rec)
+	close(flushReturned)
 	<-relDone
 	return outcome{evs: rec.seal(), completed: completed, flushTook: took, timeout: longTimeout, queueAtReq: q, hang: hang, elapsed: time.Since(t0)}
 }
@@ -535,9 +560,9 @@ func oracle(evs []event, completed bool) verdict {
 
 func genScenarios(o *common.Opts, rng *rand.Rand) []Scenario {
 	var scs []Scenario
-	mul := 1
+	mul := 2
 	if o.Thorough() {
-		mul = 10
+		mul = 20
 	}
 	// forced: every small capacity × every occupancy, plus the default capacity
 	for rep := 0; rep < 2*mul; rep++ {
@@ -556,6 +581,14 @@ func genScenarios(o *common.Opts, rng *rand.Rand) []Scenario {
 				Writers: 1 + rng.Intn(3), Prefill: rng.Intn(4), MaxLen: 300, Model: m <= 7})
 		}
 	}
+	// forced, with writers that wait (bounded) for FlushLogger's return: completion signalled before
+	// the writes are over is observed deterministically
+	for rep := 0; rep < 6*mul; rep++ {
+		for _, m := range []int{1, 2, 3} {
+			scs = append(scs, Scenario{Kind: "forced", Seed: rng.Int63(), Cap: []int{3, 8, 10000}[rep%3], Goroutines: 1 + rng.Intn(2), PerG: m,
+				Writers: 1 + rng.Intn(2), Prefill: rng.Intn(2), MaxLen: 40, WaitFlush: 25, Model: true})
+		}
+	}
 	for i := range scs {
 		if scs[i].Goroutines > scs[i].PerG {
 			scs[i].Goroutines = scs[i].PerG
@@ -563,8 +596,8 @@ func genScenarios(o *common.Opts, rng *rand.Rand) []Scenario {
 	}
 	// random, small: replayed through the model
 	for i := 0; i < 150*mul; i++ {
-		g := 1 + rng.Intn(4)
-		per := 1 + rng.Intn(5)
+		g := 1 + rng.Intn(6)
+		per := 1 + rng.Intn(8)
 		cap := []int{1, 1, 2, 3, 4, 16, 10000}[rng.Intn(7)]
 		scs = append(scs, Scenario{Kind: "random", Seed: rng.Int63(), Cap: cap, Goroutines: g, PerG: per,
 			Writers: 1 + rng.Intn(3), FlushAfter: rng.Intn(g*per + 1), Linger: []int{0, 0, 3, 20, 100}[rng.Intn(5)],
@@ -691,7 +724,7 @@ func main() {
 	var lines []string
 	var idx []int
 	for i, r := range runs {
-		if !r.sc.Model || len(r.out.evs) > 160 {
+		if !r.sc.Model || len(r.out.evs) > 400 {
 			continue
 		}
 		h := tokens(r.out.evs)
@@ -795,6 +828,9 @@ func main() {
 			}
 		case strings.HasPrefix(expect, "toobig"):
 			res.Histogram["model:toobig"]++
+			if res.Histogram["model:toobig"] <= 2 {
+				res.Note("undecided by the model (%s): admits %s %d %s", expect, treeVariant, sc.Cap, key)
+			}
 		default:
 			res.Diverge(common.Case{Stream: "logger", Op: rep, Model: modelRes, Impl: implRes + " history: " + key,
 				Note: "the observed history is not a run of the " + treeVariant + " model"})
